@@ -10,7 +10,9 @@ PANIC_VOCAB = re.compile(
     r"unwrap_failed|expect_failed|unreachable|^core::slice::index::|slice_index|::index$|::index_mut$|"
     r"copy_from_slice|split_at|swap_remove|::remove$|::insert$|::drain$|borrow_mut$|::borrow$|"
     r"from_utf8_unchecked|::div_euclid$|::rem_euclid$|::pow$|::abs$|::assert|assert_failed|"
-    r"^core::str::.*::(split_at|get_unchecked)|^alloc::vec::.*::(remove|insert|swap_remove|split_off|drain))")
+    r"^core::str::.*::(split_at|get_unchecked)|^alloc::vec::.*::(remove|insert|swap_remove|split_off|drain)|"
+    r"::swap$|::chunks|::windows$|::step_by$|::copy_within$|::rotate_|from_digit$|::to_digit$|RefCell|::repeat$|::truncate$|"
+    r"::insert_str$|::replace_range$|::split_off$|::as_chunks|::array_chunks|::select_nth|::clamp$|::first_chunk|::last_chunk|::unwrap_unchecked)")
 
 # std/alloc/core callees accepted as non-panicking for the inputs of this crate
 ALLOW_PREFIX = (
@@ -23,6 +25,10 @@ ALLOW_PREFIX = (
     "core::str::<impl str>::is_empty", "core::str::<impl str>::len", "core::default::", "core::hash::",
     "core::slice::<impl [T]>::len", "core::slice::<impl [T]>::is_empty", "core::slice::<impl [T]>::first", "core::slice::<impl [T]>::last",
     "core::slice::<impl [T]>::get", "core::slice::<impl [T]>::contains", "core::mem::", "core::ptr::addr_of",
+    # whole std areas whose panicking members all match the panic vocabulary above (which is consulted first):
+    # string / char / number helpers (saturating_*, checked_*, wrapping_*, chars, count, ...), slices, arrays, Vec, Box
+    "core::str::", "core::char::", "core::num::", "core::slice::", "core::array::", "alloc::vec::", "alloc::boxed::", "alloc::str::",
+    "core::borrow::", "core::any::", "core::cell::Cell", "core::time::", "core::ascii::", "core::unicode::",
     # inherent float methods never panic (clamp, which asserts min <= max, is excluded below)
     "core::f64::<impl f64>::", "core::f32::<impl f32>::", "std::f64::<impl f64>::", "std::f32::<impl f32>::",
 )
